@@ -35,6 +35,7 @@ CONSTANTS Mods,        \* module names
           HandlerIds,  \* handlers offered to m_mod_become
           Kinds,       \* source kinds offered to register / deregister: subset of {"fd", "tmr", "sgn", "path", "pid", "task", "thr"}
                        \* (events of "fd", "tmr", "sgn", "path", "pid", "task" sources are delivered; "thr" is covered in the registry only)
+          BadKeys,     \* pid keys that name no process: such a source cannot be armed (the registration on a RUNNING module is refused)
           Keys,        \* identifying values per kind (small integers; the driver maps them to descriptors, periods, signals, ...)
           SrcOpts,     \* option records [os |-> oneshot, ac |-> autoclose, pr |-> priority "L" | "N" | "H"] offered at registration
           EvKinds,     \* kinds of poll events that can occur in this configuration: subset of {"ps", "fd", "tmr", "sgn", "path", "pid", "task", "tb", "bt", "tick"}
@@ -595,10 +596,12 @@ SrcRegister(m, k, key, o) ==
     /\ (k = "fd" => \A x \in Mods \ {m} : ~HasSrc(S, x, "fd", key))       \* (precondition: one owner per user descriptor)
     /\ (k = "fd" => ~Holds(S, key))                                       \* (modelling bound: no event of an earlier registration of it is still referenced)
     /\ (k = "sgn" => \A x \in Mods \ {m} : ~HasSrc(S, x, "sgn", key))      \* (precondition: one owner per signal - the kernel hands a signal to one reader)
+    /\ (k = "pid" /\ key \in BadKeys => S.mod[m].st = "running")              \* (modelling bound: registered on a RUNNING module only - what a module that cannot arm one of its sources does when it starts is not settled by any property)
     /\ (k \in {"sgn", "pid"} => ~InBatch(S, m, k, key))                     \* (modelling bound: not registered again while an event of its previous registration waits in the current batch)
     /\ IF k = "fd" /\ o.pr = "L" THEN Refuse(NEG)                                \* (bad parameter: descriptor events are always high priority)
        ELSE IF ModRefused(m) THEN Refuse(NEG)
        ELSE IF HasSrc(S, m, k, key) THEN Rated(m, Ret(S, EEXIST))                 \* (the token is taken before the lookup)
+       ELSE IF k = "pid" /\ key \in BadKeys THEN Rated(m, Ret(S, NEG))              \* (it cannot be armed: refused, and no trace of it stays)
        ELSE LET s1 == [S EXCEPT !.mod[m].src = @ \cup {[k |-> k, key |-> key, os |-> (o.os \/ k \in {"task", "thr"}), ac |-> o.ac, pr |-> o.pr]}, !.ret = 0]
             \* a task registered on a RUNNING module is started at once
             IN Rated(m, IF k = "task" /\ S.mod[m].st = "running" THEN StartTask(s1, <<m, key>>) ELSE s1)
